@@ -642,6 +642,20 @@ Theorem C08_single_model_linker_eq_model :
     iters (c_st (l_core (fst rl))) = upd p (nth p (iters (fst rm)) 0) ci.
 Proof. exact single_model_linker_eq_model. Qed.
 
+(* ... and FALSE outside those premises: BaseLinker.solve_t has no feasibility guard (1), no min_iter > max_iter guard (2)
+   and no error policy (3), all of which BaseModel.solve_t has — three kept findings of the last clause of C08 *)
+Theorem C08_single_model_linker_eq_model_refuted :
+  (exists d o, feasible d 3 1 = false /\ min_iter o <= max_iter o /\ offset o = 0 /\
+               lx_mrun lx_scA d o = (lx_mA, Raise IndexError) /\ snd (lx_lrun lx_scA d o) = LRet true) /\
+  (exists o, max_iter o < min_iter o /\
+             lx_mrun lx_scA lx_dA o = (lx_mA, Raise ValueError) /\
+             snd (lx_lrun lx_scA lx_dA o) = LRaise (LExn NonConvergenceError) /\
+             map (fun ic => status (c_st (snd ic))) (l_subs (fst (lx_lrun lx_scA lx_dA o))) = [[Unsolved; Failed; Unsolved]]) /\
+  (exists sc o, errors o = ERaise /\
+                snd (lx_mrun sc lx_dA o) = Raise (SolutionError None) /\ status (fst (lx_mrun sc lx_dA o)) = [Unsolved; ErrorSt; Unsolved] /\
+                snd (lx_lrun sc lx_dA o) = LRet true).
+Proof. exact single_model_linker_eq_model_refuted. Qed.
+
 Print Assumptions C08_solve_t_preserves_shape.
 Print Assumptions C08_unselected_never_evaluated.
 Print Assumptions C08_unselected_not_restamped.
@@ -669,6 +683,7 @@ Print Assumptions C08_ctor_accepts_iff.
 Print Assumptions C08_lags_leads_are_maxima.
 Print Assumptions C08_ctor_empty.
 Print Assumptions C08_single_model_linker_eq_model.
+Print Assumptions C08_single_model_linker_eq_model_refuted.
 Print Assumptions C08_solved_iff_all_moved_lt_tol.
 Print Assumptions C08_check_vectors_keep_shape.
 Print Assumptions C08_solve_t_other_periods_untouched.
